@@ -257,6 +257,39 @@ theorem shutdown_returns (h : Handlers) (s : AppState) (pre : List IterInput) (i
       rw [hstep] at hok2 ⊢
       exact ih _ rfl hok2 (fun k hk => hpre k (by simp [hk]))
 
+/-! ### Whoever issues it
+
+The handles through which messages reach the channel (`Handle` = what `AsyncStream::send` / `broadcast` look at,
+`senderSend` / `senderBroadcast` = `AsyncSender`). A broadcast is queued whoever issues it: through the stream of
+a connected client, through the DISCONNECTED stream a disconnect handler is given, or through an `AsyncSender`.
+That the loop takes what was queued is a fact about the channel (`std::sync::mpsc`, trusted) which the driver
+checks on every run from the issuers' own records (`issuedAreFlushed`). -/
+
+/-- **Every handle queues a broadcast, exactly one, unchanged** - `connected` or not, whatever its address; an
+`AsyncSender` queues what it is given; `AsyncStream::send` queues one unicast to the stream's own client when
+connected and panics (`assert!`) when not. -/
+theorem broadcast_queued_whoever_issues (hd : Handle) (m : Msg) (a : Addr) :
+    hd.broadcast m = .queued [.broadcast m []] ∧ senderBroadcast m = .queued [.broadcast m []] ∧
+    senderSend a m = .queued [.unicast a m] ∧
+    hd.send m = (if hd.connected then .queued [.unicast hd.addr m] else .panic) :=
+  ⟨rfl, rfl, rfl, rfl⟩
+
+/-- **A broadcast issued through ANY stream object reaches every client connected at the flush exactly once.**
+Whatever handle `hd` a handler holds (the disconnected one of a client that closed, broke or timed out included):
+the iteration that takes what `hd.broadcast m` queued sends the frame of `m` once to each client connected at
+that flush and to nobody else. -/
+theorem issued_broadcast_each_connected_once (h : Handlers) (s : AppState) (i : IterInput) (hn : s.streams.Nodup)
+    (hs : i.shutdown = false) (hok : InputsOk s i = true) (hd : Handle) (m : Msg) (o : Out) (o1 o2 : List Out)
+    (hq : hd.broadcast m = .queued [o]) (hout : i.outgoing = o1 ++ o :: o2) :
+    ∃ seg, (stepLoop h s i).2 =
+        (stepLoop h s { i with outgoing := o1 }).2 ++ seg ++ flush (stepLoop h s i).1.streams o2 ∧
+      BroadcastOk (liveAtFlush s.streams i) m seg := by
+  have ho : o = .broadcast m [] := by
+    simp only [Handle.broadcast, Enq.queued.injEq, List.cons.injEq, and_true] at hq
+    exact hq.symm
+  subst ho
+  exact broadcast_each_connected_once h s i hn hs hok m [] o1 o2 hout
+
 /-! ### Non-vacuity -/
 
 def demoInputs : List IterInput :=
@@ -333,6 +366,25 @@ example : silentClientTimedOut 8 none [.life 0 1, .alive 8, .life 8 9, .alive 16
 example : pingCadenceOk 5 none [.pinged 0 1, .notPinged 5, .pinged 6 7, .notPinged 11] = true := by decide
 example : pingCadenceOk 5 none [.pinged 0 1, .pinged 3 4] = false := by decide
 example : pingCadenceOk 5 none [.pinged 0 1, .notPinged 6] = false := by decide
+
+/-! ### Who sends: the clauses on the issuers' records -/
+
+/-- a broadcast handed over (through a disconnected stream or otherwise) when 3 iterations had started must have
+been taken by a run of 4 iterations, need not by a run of 3; a unicast to the client that has gone need never -/
+example : issuedAreFlushed 4 [{ stamp := some 3, out := .broadcast ⟨true, [1]⟩ [] }] [] = false := by decide
+example : issuedAreFlushed 3 [{ stamp := some 3, out := .broadcast ⟨true, [1]⟩ [] }] [] = true := by decide
+example : issuedAreFlushed 4 [{ stamp := some 3, out := .broadcast ⟨true, [1]⟩ [] }] [.broadcast ⟨true, [1]⟩ [2, 5]] = true := by
+  decide
+example : issuedAreFlushed 4 [{ stamp := some 3, out := .broadcast ⟨true, [1]⟩ [] }, { stamp := some 2, out := .broadcast ⟨true, [1]⟩ [] }]
+    [.broadcast ⟨true, [1]⟩ [2, 5]] = false := by decide
+example : issuedAreFlushed 9 [{ stamp := some 3, out := .unicast 7 ⟨true, [1]⟩, toGone := true }, { stamp := none, out := .unicast 7 ⟨true, []⟩ }] [] = true := by
+  decide
+example : flushedWereIssued [{ stamp := some 3, out := .unicast 7 ⟨true, [1]⟩ }] [.unicast 7 ⟨true, [1]⟩, .unicast 7 ⟨true, [1]⟩] = false := by
+  decide
+/-- the disconnected stream: its broadcast is queued, its unicast panics -/
+example : (Handle.mk 3 false).broadcast ⟨true, [9]⟩ = .queued [.broadcast ⟨true, [9]⟩ []] ∧
+    (Handle.mk 3 false).send ⟨true, [9]⟩ = .panic ∧ (Handle.mk 3 true).send ⟨true, [9]⟩ = .queued [.unicast 3 ⟨true, [9]⟩] := by
+  decide
 
 /-- Without `DistinctPeers` the connect statement fails: an address admitted twice gets two connect dispatches. -/
 example : (runLoop {} {} [{ incoming := [1] }, { polls := [⟨1, [.err], false⟩] }, { incoming := [1] }]).2.count
